@@ -27,6 +27,9 @@ type topo struct {
 	// Answerable: an ideal resolver with unlimited budget finds an answer.
 	Answerable bool
 	Servers    int
+	// DeadAddrs: some advertised nameserver addresses are unreachable, so connection failures of
+	// whole (partial) server lists are genuine, shareable evidence in this world
+	DeadAddrs bool
 	// Collide: same-tag DNSKEY candidates per signature in the padded zone (manysig variant 2)
 	Collide int
 	// Fallback: the failover middleware's fallback server, when the pipe has one
@@ -257,6 +260,7 @@ func buildTopo(family string, n, variant int, signed bool) *topo {
 		t.QName = "www.big.test."
 		t.Answerable = true
 		t.Honest = variant != 2
+		t.DeadAddrs = variant == 2
 	case "manysig":
 		// signed zone whose answers carry n extra RRSIGs that do not verify
 		// (variant 0: in front of the good one; variant 1: with n extra DNSKEYs sharing the signer)
